@@ -644,3 +644,88 @@ def check_reinit(mod, clsname, method, allowed=('graph',)):
             return [('state_independent_of_previous_calls', 'refuted',
                      f'line {s.lineno}: self.{a} may be read before {method} has (re)initialised it: the result depends on the state left by a previous call')]
     return [('state_independent_of_previous_calls', 'discharged', f'{method} assigns {sorted(assigned - set(allowed))} before any use')]
+
+
+
+# ---- no hidden state: the function (and what it calls inside pytenet) does not use module-level mutable variables ---------
+
+PYTENET_MODULES = ('bond_ops', 'krylov', 'operation', 'mps', 'mpo', 'evolution', 'minimization', 'opgraph', 'opchain', 'optree', 'autop',
+                   'hamiltonian', 'bipartite_graph', 'qnumber', 'fermi_sim', 'util')
+
+def _mutable_globals(m):
+    """module-level names bound to a mutable container (dict / list / set literal or constructor), except __all__"""
+    out = {}
+    for n in m.tree.body:
+        if isinstance(n, (ast.Assign, ast.AnnAssign)):
+            val = n.value
+            tgts = n.targets if isinstance(n, ast.Assign) else [n.target]
+            mutable = isinstance(val, (ast.Dict, ast.List, ast.Set, ast.ListComp, ast.DictComp, ast.SetComp)) or \
+                (isinstance(val, ast.Call) and _dotted(val.func) in ('dict', 'list', 'set', 'defaultdict', 'collections.defaultdict', 'OrderedDict',
+                                                                      'collections.OrderedDict', 'np.zeros', 'np.empty', 'np.array', 'weakref.WeakKeyDictionary',
+                                                                      'weakref.WeakValueDictionary', 'functools.lru_cache'))
+            for t in tgts:
+                if isinstance(t, ast.Name) and t.id != '__all__' and mutable:
+                    out[t.id] = n.lineno
+    return out
+
+
+def check_hidden_state(mod, qual, depth=4):
+    """-> (status, detail): discharged iff neither the function nor any pytenet function reachable from it through direct calls reads
+    or writes a module-level mutable variable, declares a global, uses a mutable default argument or a caching decorator"""
+    try:
+        loader.module(mod)
+    except Exception:
+        return 'undecided', f'module {mod} not found'
+    seen = set(); found = []
+    def visit(mname, fname, d):
+        if (mname, fname) in seen or d < 0:
+            return
+        seen.add((mname, fname))
+        try:
+            m = loader.module(mname)
+        except Exception:
+            return
+        fn = m.functions.get(fname)
+        if fn is None:
+            return
+        mg = _mutable_globals(m)
+        for dec in fn.decorator_list:
+            dn = _dotted(dec.func if isinstance(dec, ast.Call) else dec) or ''
+            if 'cache' in dn:
+                found.append(f'{mname}.{fname}: caching decorator @{dn}')
+        for dflt in list(fn.args.defaults) + [x for x in fn.args.kw_defaults if x is not None]:
+            if isinstance(dflt, (ast.Dict, ast.List, ast.Set)) or (isinstance(dflt, ast.Call) and _dotted(dflt.func) in ('dict', 'list', 'set')):
+                found.append(f'{mname}.{fname}: mutable default argument at line {dflt.lineno}')
+        local = {a.arg for a in fn.args.args + fn.args.kwonlyargs} | {x.id for x in ast.walk(fn) if isinstance(x, ast.Name) and isinstance(x.ctx, ast.Store)}
+        for x in ast.walk(fn):
+            if isinstance(x, ast.Global):
+                found.append(f'{mname}.{fname}: global {", ".join(x.names)} at line {x.lineno}')
+            elif isinstance(x, ast.Name) and isinstance(x.ctx, ast.Load) and x.id in mg and x.id not in local:
+                found.append(f'{mname}.{fname}: module-level mutable variable `{x.id}` (defined at line {mg[x.id]}) used at line {x.lineno}')
+            elif isinstance(x, ast.Call):
+                dn = _dotted(x.func)
+                if dn is None:
+                    continue
+                base = dn.split('.')[-1]
+                cls = fname.split('.')[0] if '.' in fname else None
+                cands = []
+                if dn in m.functions:
+                    cands.append((mname, dn))
+                if dn.startswith('self.') and cls and f'{cls}.{base}' in m.functions:
+                    cands.append((mname, f'{cls}.{base}'))
+                if base in m.classes and f'{base}.__init__' in m.functions:
+                    cands.append((mname, f'{base}.__init__'))
+                if not cands:
+                    for om in PYTENET_MODULES:
+                        try:
+                            o = loader.module(om)
+                        except Exception:
+                            continue
+                        if base in o.functions and '.' not in dn.replace(f'{om}.', ''):
+                            cands.append((om, base))
+                for c in cands[:3]:
+                    visit(c[0], c[1], d - 1)
+    visit(mod, qual, depth)
+    if found:
+        return 'refuted', '; '.join(sorted(set(found))[:4]) + ' (needs native confirmation: state kept across calls is not in itself a violation)'
+    return 'discharged', f'no module-level mutable state, global declaration, mutable default or caching decorator in {len(seen)} reachable pytenet functions'
